@@ -373,6 +373,71 @@ Local Arguments N.div : simpl nomatch.
 Local Arguments N.add : simpl nomatch.
 Local Arguments N.sub : simpl nomatch.
 
+(** One lemma per program point, each one instruction plus the lemma of the next point (symbolic
+    execution of 30 instructions from every point at once is far too slow). [R a b c z] are the registers. *)
+Notation R a b c z := {| ax := a; bx := b; cx := c; zf := z |}.
+Notation DONE := (Holding None, 1).
+
+Ltac one_step :=
+  let n := fresh "n" in let Hn := fresh "Hn" in
+  intros n Hn; destruct n as [|n]; [exfalso; lia|];
+  cbn [solo_thread nth_error prog expected_cfg];
+  cbn [exec with_ax with_zf set_reg ax bx cx zf attempts expected_cfg].
+
+Lemma solo_done y n : solo_thread expected_cfg y n (Holding None) 1 = DONE.
+Proof. destruct n; reflexivity. Qed.
+
+Lemma P6 y b c z : forall n, (1 <= n)%nat -> solo_thread expected_cfg y n (InAcq 6 (R PState b c z)) 1 = DONE.
+Proof. one_step. apply solo_done. Qed.
+Lemma P5t y b c : forall n, (2 <= n)%nat -> solo_thread expected_cfg y n (InAcq 5 (R PState b c true)) 1 = DONE.
+Proof. one_step. apply P6. lia. Qed.
+Lemma P4z y c z : forall n, (3 <= n)%nat -> solo_thread expected_cfg y n (InAcq 4 (R PState 0 c z)) 1 = DONE.
+Proof. one_step. apply P5t. lia. Qed.
+Lemma P3 y c z : forall n, (4 <= n)%nat -> solo_thread expected_cfg y n (InAcq 3 (R PState 1 c z)) 0 = DONE.
+Proof. one_step. apply P4z. lia. Qed.
+Lemma P2 y b c z : forall n, (5 <= n)%nat -> solo_thread expected_cfg y n (InAcq 2 (R PState b c z)) 0 = DONE.
+Proof. one_step. apply P3. lia. Qed.
+Lemma P1 y b c z : forall n, (6 <= n)%nat -> solo_thread expected_cfg y n (InAcq 1 (R PState b c z)) 0 = DONE.
+Proof. one_step. apply P2. lia. Qed.
+Lemma P0 y a b c z : forall n, (7 <= n)%nat -> solo_thread expected_cfg y n (InAcq 0 (R a b c z)) 0 = DONE.
+Proof. one_step. apply P1. lia. Qed.
+Lemma P10t y b c : forall n, (6 <= n)%nat -> solo_thread expected_cfg y n (InAcq 10 (R PState b c true)) 0 = DONE.
+Proof. one_step. apply P2. lia. Qed.
+Lemma P9z y c z : forall n, (7 <= n)%nat -> solo_thread expected_cfg y n (InAcq 9 (R PState 0 c z)) 0 = DONE.
+Proof. one_step. apply P10t. lia. Qed.
+Lemma P8 y b c z : forall n, (8 <= n)%nat -> solo_thread expected_cfg y n (InAcq 8 (R PState b c z)) 0 = DONE.
+Proof. one_step. apply P9z. lia. Qed.
+Lemma P7 y b c z : forall n, (9 <= n)%nat -> solo_thread expected_cfg y n (InAcq 7 (R PState b c z)) 0 = DONE.
+Proof. one_step. apply P8. lia. Qed.
+Lemma P19 y b c z : forall n, (10 <= n)%nat -> solo_thread expected_cfg y n (InAcq 19 (R PState b c z)) 0 = DONE.
+Proof. one_step. apply P7. lia. Qed.
+Lemma P18 y b c z : forall n, (11 <= n)%nat -> solo_thread expected_cfg y n (InAcq 18 (R PState b c z)) 0 = DONE.
+Proof. one_step. apply P19. lia. Qed.
+Lemma P17 y a b c z : forall n, (12 <= n)%nat -> solo_thread expected_cfg y n (InAcq 17 (R a b c z)) 0 = DONE.
+Proof. one_step. apply P18. lia. Qed.
+Lemma P16 y b c z : forall n, (13 <= n)%nat -> solo_thread expected_cfg y n (InAcq 16 (R PYieldFn b c z)) 0 = DONE.
+Proof. one_step. apply P17. lia. Qed.
+Lemma P15 y b c : forall n, (14 <= n)%nat ->
+  solo_thread expected_cfg y n (InAcq 15 (R (if y then PYieldFn else PNull) b c (negb y))) 0 = DONE.
+Proof. destruct y; one_step; [apply P16|apply P17]; lia. Qed.
+Lemma P14 y b c z : forall n, (15 <= n)%nat ->
+  solo_thread expected_cfg y n (InAcq 14 (R (if y then PYieldFn else PNull) b c z)) 0 = DONE.
+Proof. destruct y; one_step; [apply (P15 true)|apply (P15 false)]; lia. Qed.
+Lemma P13 y b c z : forall n, (16 <= n)%nat -> solo_thread expected_cfg y n (InAcq 13 (R PState b c z)) 0 = DONE.
+Proof. one_step. apply P14. lia. Qed.
+Lemma P12 y b c z : forall n, (17 <= n)%nat -> solo_thread expected_cfg y n (InAcq 12 (R PState b c z)) 0 = DONE.
+Proof. destruct z; one_step; [apply P13|apply P7]; lia. Qed.
+Lemma P11 y b c z : forall n, (18 <= n)%nat -> solo_thread expected_cfg y n (InAcq 11 (R PState b c z)) 0 = DONE.
+Proof. one_step. apply P12. lia. Qed.
+Lemma P10f y b c : forall n, (19 <= n)%nat -> solo_thread expected_cfg y n (InAcq 10 (R PState b c false)) 0 = DONE.
+Proof. one_step. apply P11. lia. Qed.
+Lemma P9 y b c z : forall n, (20 <= n)%nat -> solo_thread expected_cfg y n (InAcq 9 (R PState b c z)) 0 = DONE.
+Proof. one_step. destruct (b =? 0); [apply P10t|apply P10f]; lia. Qed.
+Lemma P5f y b c : forall n, (10 <= n)%nat -> solo_thread expected_cfg y n (InAcq 5 (R PState b c false)) 0 = DONE.
+Proof. one_step. apply P7. lia. Qed.
+Lemma P4n y b c z : (b =? 0) = false -> forall n, (11 <= n)%nat -> solo_thread expected_cfg y n (InAcq 4 (R PState b c z)) 0 = DONE.
+Proof. intros Hb. one_step. rewrite Hb. apply P5f. lia. Qed.
+
 (** a task anywhere inside Acquire that does not own the lock gets it within 30 of its own
     instructions once the lock word is 0 (its plain reads returning the true value) *)
 Lemma spin_progress y pc r :
@@ -381,17 +446,33 @@ Lemma spin_progress y pc r :
 Proof.
   intros (Hpc & Hax & Hbx & Hy & Hz & Hy16) Hg.
   destruct r as [a b c z]. cbn [ax bx cx zf] in *.
-  destruct (b =? 0) eqn:Eb; destruct (w32 (c + two32 - 1) =? 0) eqn:Ec.
-  all: destruct (pc_cases pc Hpc) as [->|[->|[->|[->|[->|[->|[->|[->|[->|[->|[->|[->|[->|[->|[->|[->|[->|[->|[->| ->]]]]]]]]]]]]]]]]]]];
+  destruct (pc_cases pc Hpc) as [->|[->|[->|[->|[->|[->|[->|[->|[->|[->|[->|[->|[->|[->|[->|[->|[->|[->|[->| ->]]]]]]]]]]]]]]]]]]];
     try (assert (Ha: a = PState) by (apply Hax; cbn; tauto); subst a);
     try (assert (Ha: a = if y then PYieldFn else PNull) by (apply Hy; tauto); subst a);
     try (specialize (Hbx eq_refl); subst b);
     try (specialize (Hz eq_refl); subst z);
     try (specialize (Hy16 eq_refl); subst y);
     clear Hax Hy;
-    cbn [got bx zf] in Hg; try discriminate; try congruence.
-  all: try destruct y; try destruct z; try discriminate.
-  all: cbn; rewrite ?Eb, ?Ec; cbn; rewrite ?Eb, ?Ec; cbn; try reflexivity.
+    cbn [got bx zf] in Hg; try discriminate.
+  - apply P0; lia.
+  - apply P1; lia.
+  - apply P2; lia.
+  - apply P3; lia.
+  - apply P4n; [exact Hg|lia].
+  - subst z. apply P5f; lia.
+  - apply P7; lia.
+  - apply P8; lia.
+  - apply P9; lia.
+  - destruct z; [apply P10t|apply P10f]; lia.
+  - apply P11; lia.
+  - apply P12; lia.
+  - apply P13; lia.
+  - apply P14; lia.
+  - apply P15; lia.
+  - apply (P16 true); lia.
+  - apply P17; lia.
+  - apply P18; lia.
+  - apply P19; lia.
 Qed.
 
 (** a task that owns the lock but is still inside Acquire returns within 3 instructions *)
